@@ -409,6 +409,9 @@ TRUSTED_BASE = [
 ]
 
 
+PQ_TABLE_USERS = ("C10", "C11", "C19")
+
+
 def prelude(res, need_dovi=False, need_model=True, tables=(), release=False):
     """rebuild everything the check needs from /repo's working tree; returns broken obligations"""
     broken = []
@@ -424,6 +427,11 @@ def prelude(res, need_dovi=False, need_model=True, tables=(), release=False):
         if rc != 0:
             raise RuntimeError("dovi_tool build failed:\n" + out[-3000:])
     st = run_translator()
+    if res.prop in PQ_TABLE_USERS:
+        # the PQ tables are generated from a run of the implementation: regenerate them from the current tree
+        from . import pqgen
+        with Lock("pqgen"):
+            pqgen.write_gen(*pqgen.tables())
     for t, msgs in st.get("issues", {}).items():
         if not tables or t in tables or t == "translator":
             for m in msgs:
